@@ -5,12 +5,18 @@ All theorems quantify over EVERY execution of the model from `init`: any number 
 any descriptors (shared or not, any masks, persistent or one-shot), any interleaving of API calls made
 outside callbacks, any callback scripts (initialize/enable/disable/destroy of any other event,
 disable/re-initialise of the running one, close + reopen of a descriptor number, readiness changes),
-any loop passes with any ready list the kernel may hand out (`validReady`), on either back-end.
-`exec init sts = some s` says that `sts` is such an execution.  The model is the REPAIRED code
+any loop passes with any ready list the kernel may hand out (`validReady`), on either back-end — a pass
+being either the bare dispatch (`Step.pass`) or a WHOLE TURN of `runLoop()` (`Step.loop`: wait → callbacks
+of the due timers → dispatch → batch of deferred tasks, the timer callbacks and tasks being arbitrary
+scripts of the same API calls; `Step.loopBadf` for the EBADF turn of select; `Step.defer`).
+`exec (initL L) sts = some s` says that `sts` is such an execution of a loop whose back-end has
+`FD_SETSIZE = L` (`L = 0`: none, epoll; `initL 0 = init`).  The model is the REPAIRED code
 (patches/C03-01…04); the code as found is refuted in `AsFound.lean`.
 -/
 import TboxModel.C03.OrderIndep
+import TboxModel.C03.ProofsLim
 import TboxModel.C03.AsFound
+import TboxModel.C03.Mask
 namespace Tbox.C03
 
 /-- **only enabled, only ready**: every callback ever made was on an event object that was alive and
@@ -18,11 +24,11 @@ enabled when `onEvent` was entered, one of its subscribed conditions was in the 
 the event belongs to the descriptor whose ready entry was being served, and the entry is one of the
 current pass's ready list — whatever the callbacks did, closing descriptors under the feet of their
 events included. -/
-theorem C03_only_enabled_ready (sts : List Step) (s : State) (he : exec init sts = some s) :
+theorem C03_only_enabled_ready {L : Nat} (sts : List Step) (s : State) (he : exec (initL L) sts = some s) :
     ∀ c, Out.cb c ∈ s.log →
       c.aliveAt = true ∧ c.enabledAt = true ∧ c.meets = true ∧ c.evFd = c.dispFd ∧ c.inReady = true := by
   intro c hc
-  have ok : CbOk c := (exec_inv sts init init_inv s he).log _ hc
+  have ok : CbOk c := (exec_inv sts (initL L) (initL_inv L) s he).log _ hc
   exact ⟨ok.alive, ok.enabled, ok.meets, ok.sameFd, ok.inReady⟩
 
 -- OPEN (false as stated, see the counterexample below): for EVERY execution, the descriptor of a callback
@@ -36,9 +42,9 @@ theorem C03_only_enabled_ready (sts : List Step) (s : State) (he : exec init sts
 while an event object still referred to it (and no descriptor number was left closed), every
 callback's descriptor was still the open file the kernel had reported on — in particular a
 descriptor number closed and reopened inside a callback never receives the old file's readiness. -/
-theorem C03_same_open_file_partial (sts : List Step) (s : State) (he : exec init sts = some s)
+theorem C03_same_open_file_partial {L : Nat} (sts : List Step) (s : State) (he : exec (initL L) sts = some s)
     (hb : s.breach = false) : ∀ c, Out.cb c ∈ s.log → c.instOk = true :=
-  (exec_sync sts init init_inv init_sync s he hb).log
+  (exec_sync sts (initL L) (initL_inv L) (initL_sync L) s he hb).log
 
 /-- the full statement is false of the code (and no repair is possible inside the loop): events 0 and 1
 on descriptors 0 and 1, both ready; the callback of event 0 closes descriptor 1 and reopens the
@@ -50,15 +56,15 @@ theorem C03_same_open_file_counterexample :
    by decide⟩
 
 /-- **one-shot**: a one-shot event already reports disabled when its callback starts. -/
-theorem C03_oneshot_disabled_in_cb (sts : List Step) (s : State) (he : exec init sts = some s) :
+theorem C03_oneshot_disabled_in_cb {L : Nat} (sts : List Step) (s : State) (he : exec (initL L) sts = some s) :
     ∀ c, Out.cb c ∈ s.log → c.oneshot = true → c.enabledInCb = false :=
-  fun _ hc => ((exec_inv sts init init_inv s he).log _ hc).oneshot
+  fun _ hc => ((exec_inv sts (initL L) (initL_inv L) s he).log _ hc).oneshot
 
 /-- **no stale access, no exception**: no execution ever dereferences a freed shared record or a
 destroyed event object, erases `end()`, or lets an exception leave the loop. -/
-theorem C03_no_stale_access (sts : List Step) (s : State) (he : exec init sts = some s) :
+theorem C03_no_stale_access {L : Nat} (sts : List Step) (s : State) (he : exec (initL L) sts = some s) :
     ∀ b, Out.bad b ∉ s.log :=
-  fun _ hb => (exec_inv sts init init_inv s he).log _ hb
+  fun _ hb => (exec_inv sts (initL L) (initL_inv L) s he).log _ hb
 
 /-- **counters and kernel interest are exact** in every reachable state: reference count = number
 of event objects initialised on the descriptor, the subscriber vector is exactly the enabled ones
@@ -67,14 +73,14 @@ cached for epoll = the mask recomputed from the counters, and the kernel has the
 registered with exactly that mask or not at all (the latter only after a close behind the loop's
 back or on a closed number: with the close contract kept the kernel interest is exactly the mask); a
 descriptor without record is not registered. -/
-theorem C03_counts_match (sts : List Step) (s : State) (he : exec init sts = some s) (f : Nat) :
+theorem C03_counts_match {L : Nat} (sts : List Step) (s : State) (he : exec (initL L) sts = some s) (f : Nat) :
     (∀ r, s.recs f = some r →
       r.ref = r.holders.length ∧ (∀ e, e ∈ r.holders ↔ Holds s f e) ∧ 0 < r.ref ∧
       r.subs.Nodup ∧ (∀ e, e ∈ r.subs ↔ Subd s f e) ∧
       r.rd = cnt s 1 r.subs ∧ r.wr = cnt s 2 r.subs ∧ r.ex = cnt s 4 r.subs ∧ r.kev = maskOf r ∧
       (s.kern f = maskOf r ∨ s.kern f = 0) ∧ (s.breach = false → s.kern f = maskOf r)) ∧
     (s.recs f = none → s.kern f = 0) := by
-  have h := exec_inv sts init init_inv s he
+  have h := exec_inv sts (initL L) (initL_inv L) s he
   refine ⟨fun r hr => ?_, fun hn => (h.norec f hn).1⟩
   have ok := h.recs f r hr
   refine ⟨ok.ref_eq, ok.h_iff, ?_, ok.s_nodup, ok.s_iff, ok.rd, ok.wr, ok.ex, ok.kev, ?_, ?_⟩
@@ -85,15 +91,15 @@ theorem C03_counts_match (sts : List Step) (s : State) (he : exec init sts = som
   · rw [← ok.kev]; exact ok.kor
   · intro hb
     rw [← ok.kev]
-    exact ((exec_sync sts init init_inv init_sync s he hb).recs f r hr).1
+    exact ((exec_sync sts (initL L) (initL_inv L) (initL_sync L) s he hb).recs f r hr).1
 
 /-- **EBADF is safe and does not spin**: the pass in which `select` failed with EBADF keeps the
 invariant, raises nothing, and afterwards none of the closed descriptors it looked at has a
 subscriber left, so the next `select` does not fail on them again. -/
-theorem C03_badf_pass_safe (sts : List Step) (s : State) (he : exec init sts = some s) (fds : List Nat) :
+theorem C03_badf_pass_safe {L : Nat} (sts : List Step) (s : State) (he : exec (initL L) sts = some s) (fds : List Nat) :
     Inv (removeInvalid s fds) ∧ (∀ b, Out.bad b ∉ (removeInvalid s fds).log) ∧
     badfTrigger (removeInvalid s fds) fds = false := by
-  have h0 := exec_inv sts init init_inv s he
+  have h0 := exec_inv sts (initL L) (initL_inv L) s he
   have h := removeInvalid_inv fds s h0
   refine ⟨h, fun _ hb => h.log _ hb, ?_⟩
   unfold badfTrigger
@@ -176,19 +182,107 @@ theorem C03_backends_agree (s : State) (h : Inv s) (S : Sync s) (rE rS : List (N
 scripts of all their subscribers are local (enable/disable events of the same descriptor, change
 readiness through a peer; nothing is (re-)initialised, destroyed or closed), then every serving order of
 the ready list yields the same callbacks. -/
-theorem C03_order_indep_syn (sts : List Step) (s : State) (he : exec init sts = some s) (r : List (Nat × Nat))
+theorem C03_order_indep_syn {L : Nat} (sts : List Step) (s : State) (he : exec (initL L) sts = some s) (r : List (Nat × Nat))
     (hs : OrderIndepSyn s r = true) : OrderIndep s r :=
-  orderIndepSyn_sound s (exec_inv sts init init_inv s he) r hs
+  orderIndepSyn_sound s (exec_inv sts (initL L) (initL_inv L) s he) r hs
 
 /-- **back-ends agree, decidable premise**: in a reachable state with the close contract kept, for a
 pass that satisfies the syntactic criterion, the select back-end (ascending order) and the epoll
 back-end (kernel order) deliver the same callbacks. -/
-theorem C03_backends_agree_syn (sts : List Step) (s : State) (he : exec init sts = some s) (hb : s.breach = false)
+theorem C03_backends_agree_syn {L : Nat} (sts : List Step) (s : State) (he : exec (initL L) sts = some s) (hb : s.breach = false)
     (rE rS : List (Nat × Nat)) (hE : validReady .epoll s rE = true) (hS : validReady .select s rS = true)
     (hsame : ∀ f, f ∈ rE.map (·.1) ↔ f ∈ rS.map (·.1)) (hsyn : OrderIndepSyn s rE = true) :
     (cbKeys (pass s rS)).Perm (cbKeys (pass s rE)) :=
-  C03_backends_agree s (exec_inv sts init init_inv s he) (exec_sync sts init init_inv init_sync s he hb) rE rS hE hS
+  C03_backends_agree s (exec_inv sts (initL L) (initL_inv L) s he) (exec_sync sts (initL L) (initL_inv L) (initL_sync L) s he hb) rE rS hE hS
     hsame (C03_order_indep_syn sts s he rE hsyn)
+
+/-! ### a whole turn of `runLoop()` -/
+
+/-- the bare dispatch is the turn in which no timer is due and no task is queued -/
+theorem C03_loop_pass_is_pass (s : State) (r : List (Nat × Nat)) : loopPass s [] r [] = pass s r := rfl
+
+/-- timer callbacks, deferred tasks and API calls never make a descriptor callback themselves: all
+callbacks of a turn come from the dispatch of its ready list -/
+theorem C03_scripts_make_no_callback (scs : List (List Act)) (s : State) : cbKeys (runScripts s scs) = cbKeys s :=
+  cbKeys_runScripts scs s
+
+/-- **back-ends agree over whole turns**: same state at the wait, same due timers (same callbacks in the
+same order), same deferred batch, the same descriptors reported ready; if the dispatch — which starts
+from the state the timer callbacks left behind, with the snapshot of the wait — satisfies the decidable
+criterion, select (ascending order) and epoll (kernel order) deliver the same callbacks. -/
+theorem C03_backends_agree_loop {L : Nat} (sts : List Step) (s : State) (he : exec (initL L) sts = some s)
+    (hb : s.breach = false) (tms nx : List (List Act)) (rE rS : List (Nat × Nat))
+    (hE : validReady .epoll s rE = true) (hS : validReady .select s rS = true)
+    (hsame : ∀ f, f ∈ rE.map (·.1) ↔ f ∈ rS.map (·.1)) (hsyn : OrderIndepSyn (runScripts s tms) rE = true) :
+    (cbKeys (loopPass s tms rS nx)).Perm (cbKeys (loopPass s tms rE nx)) := by
+  have h := exec_inv sts (initL L) (initL_inv L) s he
+  have S := exec_sync sts (initL L) (initL_inv L) (initL_sync L) s he hb
+  obtain ⟨ndE, mE⟩ := validReady_unpack hE
+  obtain ⟨ndS, mS⟩ := validReady_unpack hS
+  have hperm : rS.Perm rE := by
+    rw [List.perm_ext_iff_of_nodup (nodup_of_map_fst ndS) (nodup_of_map_fst ndE)]
+    intro fm
+    constructor
+    · intro hm
+      have hf : fm.1 ∈ rS.map (·.1) := List.mem_map.2 ⟨fm, hm, rfl⟩
+      obtain ⟨fm', hm', hfe⟩ := List.mem_map.1 ((hsame fm.1).2 hf)
+      have : fm' = fm := by
+        apply Prod.ext hfe
+        rw [mE fm' hm', mS fm hm, C03_interest_agree s h S, hfe]
+      rw [← this]; exact hm'
+    · intro hm
+      have hf : fm.1 ∈ rE.map (·.1) := List.mem_map.2 ⟨fm, hm, rfl⟩
+      obtain ⟨fm', hm', hfe⟩ := List.mem_map.1 ((hsame fm.1).1 hf)
+      have : fm' = fm := by
+        apply Prod.ext hfe
+        rw [mS fm' hm', mE fm hm, C03_interest_agree s h S, hfe]
+      rw [← this]; exact hm'
+  exact loopPass_order_indep s h tms nx rE hsyn rS hperm
+
+/-- **a failed wait is harmless**: after EINTR or EBADF the select loop never terminates, and the turn is
+the whole turn with an empty ready list resp. the EBADF turn — whatever the timer callbacks do in between
+(in particular to `errno`: patch 08); so every theorem above covers it. -/
+theorem C03_failed_wait_is_a_turn (s : State) (e : WaitErr) (he : e ≠ .other) (tms nx : List (List Act)) (fds : List Nat) :
+    (selectFailed s e tms fds nx = some (step s (.loop .select tms [] nx)) ∧ valid s (.loop .select tms [] nx) = true) ∨
+    selectFailed s e tms fds nx = some (step s (.loopBadf fds tms fds nx)) := by
+  cases e with
+  | eintr => exact Or.inl ⟨rfl, by simp [valid, validReady, sortedFds]⟩
+  | ebadf => exact Or.inr rfl
+  | other => exact absurd rfl he
+
+/-- **select never touches an `fd_set` out of bounds**: in every reachable state of a loop whose
+back-end has `FD_SETSIZE = L`, every descriptor with a shared record — the only ones `fillFdSets`
+passes to `FD_SET` and the dispatch loop passes to `FD_ISSET` — is below `L`. -/
+theorem C03_select_sets_in_bounds {L : Nat} (hL : L ≠ 0) (sts : List Step) (s : State)
+    (he : exec (initL L) sts = some s) (f : Nat) (hf : interest .select s f ≠ 0) : f < L := by
+  have h := exec_inv sts (initL L) (initL_inv L) s he
+  have hl := exec_evLim sts (initL L) (initL_inv L) (fun e hi => by simp [initL] at hi) s he
+  have hlim : s.lim = L := exec_lim sts (initL L) s he
+  unfold interest at hf
+  cases hr : s.recs f with
+  | none => simp [hr] at hf
+  | some r =>
+    have ok := h.recs f r hr
+    cases hh : r.holders with
+    | nil => exact absurd hh ok.h_ne
+    | cons a l =>
+      have ha : Holds s f a := (ok.h_iff a).1 (by rw [hh]; exact List.mem_cons_self)
+      rcases hl a ha.2.1 with h0 | hlt
+      · exact absurd (hlim ▸ h0) hL
+      · rw [ha.2.2, hlim] at hlt; exact hlt
+
+/-- … because `initialize` on such a descriptor is refused observably (returns false) and changes nothing -/
+theorem C03_select_rejects_high_fd (s : State) (e f m : Nat) (o : Bool) (hL : s.lim ≠ 0) (hf : s.lim ≤ f)
+    (ha : (s.evs e).alive = true) (hd : (s.evs e).enabled = false) : initEv s e f m o = (s, false) := by
+  unfold initEv
+  simp [ha, hd, hL, hf]
+
+/-- the select back-end as found had no such guard (it behaved like `L = 0`): an event enabled on descriptor
+1024 puts 1024 into the sets `fillFdSets` builds — `FD_SET(1024, &read_set)` writes past the `fd_set` -/
+theorem C03_select_high_fd_asfound_counterexample :
+    ∃ sts s, exec init sts = some s ∧ interest .select s 1024 = 1 ∧
+      (exec (initL 1024) sts).map (fun s => interest .select s 1024) = some 0 :=
+  ⟨[.newEv [], .api (.init 0 1024 1 false), .api (.enable 0)], _, rfl, by decide, by decide⟩
 
 /-! ### non-vacuity: concrete executions that satisfy the hypotheses -/
 
@@ -226,7 +320,29 @@ example : cbKeys (pass (twoFds []) [(0, 1), (1, 1)]) = [(0, 1)] ∧
 /-- the criterion holds for `quiet` and fails as soon as a callback destroys an event of another descriptor -/
 example : OrderIndepSyn quiet [(1, 3), (0, 1)] = true ∧ OrderIndepSyn (twoFds []) [(0, 1), (1, 1)] = false := by decide
 
--- OPEN (not attempted): a wider criterion that also admits initialize/destroy/close confined to one ready
--- descriptor's own events and numbers (needs an equivalence up to creation stamps and pool blocks).
+/-- the seeded scenario as an execution: a timer due in the same turn as the ready descriptor 0 destroys
+its last event, closes it, reopens the number and enables a fresh event: a valid execution with the
+close contract kept, and no callback at all -/
+def demoTimer : List Step :=
+  [.newEv [], .newEv [], .api (.init 0 0 1 false), .api (.enable 0), .api (.setR 0 true),
+   .loop .epoll [reuseScript] [(0, 1)] [[.init 0 0 1 false]]]
+example : (exec init demoTimer).map (fun s => (cbKeys s, s.breach)) = some ([], false) := by decide
+/-- without the timer the event is called -/
+example : (exec init (demoTimer.take 5 ++ [.loop .select [] [(0, 1)] []])).map cbKeys = some [(0, 1)] := by decide
+/-- an EBADF turn whose timer callback closes the watched descriptor is NOT what the kernel does (the
+trigger is evaluated at the wait); with the descriptor closed before the wait it is -/
+example : (exec init (demoTimer.take 5 ++ [.loopBadf [0] [[.kill 0]] [0] []])).isSome = false := by decide
+example : (exec init (demoTimer.take 5 ++ [.api (.kill 0), .loopBadf [0] [[.post 3]] [0] [[.close 0]]])).isSome = true := by decide
+/-- the select limit: descriptor 1023 is accepted, 1024 refused -/
+example : (exec (initL 1024) [.newEv [], .api (.init 0 1023 1 false), .api (.enable 0)]).map
+    (fun s => interest .select s 1023) = some 1 := by decide
+
+-- OPEN (round 3: looked at, not closed): a wider criterion that also admits initialize/destroy/close confined to
+-- one ready descriptor's own events and numbers.  `SimF`/`Frame` (OrderIndep.lean) compare records with `=`;
+-- once a callback may free and re-create the record of its own descriptor, the two serving orders produce
+-- records that differ in `serial`, `block` and `inst`, and event tables that differ in `nEv`-independent but
+-- order-dependent pool state — the simulation has to be restated up to a renaming of stamps and blocks (and
+-- `findRec`'s `serial ≤ w.serial` test needs "created in this pass" as an order-independent notion).  The
+-- dynamic comparison (`cmp`) reports such passes as `cmp-order-dependent` and claims nothing for them.
 
 end Tbox.C03
